@@ -22,7 +22,7 @@ contain function literals that do (the shape of the repaired finding D31 — jud
 Known-defect signatures the generator stays away from (DESIGN §6 + this property's findings):
   D1  try/catch only in functions without parameters (or at module level)
   D2  no break/continue
-  D32 no closure inside `init` mentions `self`
+  (D32, a closure inside `init` that mentions `self`, is repaired: the shape is generated)
   D33 no declaration directly inside a `try` block that is left by `raise`
 """
 
@@ -588,7 +588,25 @@ class Gen:
         def selfv():
             return ("var", self.fo(), "self")
 
-        method("init", "init", 1, lambda ps: [("op", "exprS", [("op", "setF:v", [selfv(), ("var", self.fo(), ps[0][1])])])])
+        def init_body(ps):
+            b = [("op", "exprS", [("op", "setF:v", [selfv(), ("var", self.fo(), ps[0][1])])])]
+            if self.rng.random() < 0.4:
+                # a closure over `self` inside the initialiser itself (self is then a boxed parameter of init, and init
+                # must still answer the instance: the shape of the repaired findings D27c / D32)
+                self.features.add("self-captured-in-init")
+                kn = self.fresh_name(FUN_NAMES)
+                dk = self.fd()
+                d0 = self.fd()
+                self.funs.append(FunCtx(0, "lam"))
+                self.push()
+                lb = [("op", "ret", [("op", "getF:v", [selfv()])])]
+                self.pop()
+                self.funs.pop()
+                b.append(("let", dk, kn, ("lam", d0, [], lb)))
+                self.declare(Var(kn, F0))
+                b.append(("op", "exprS", [("op", "call", [("var", self.fo(), "print"), ("op", "call", [("var", self.fo(), kn)])])]))
+            return b
+        method("init", "init", 1, init_body)
         method("method", "get", 0, lambda ps: self.stmts(self.rng.randrange(0, 2)) + [("op", "ret", [("op", "getF:v", [selfv()])])])
 
         def bump_body(ps):
